@@ -1,5 +1,7 @@
 """Path enumeration over a MIR body with recognised branch conditions, and extraction of
 finite decision tables (string -> variant, variant -> value) from match-shaped functions."""
+import json
+
 from .facts import op_local, op_place, op_const
 
 STR_EQ = ("core::str::traits::<impl std::cmp::PartialEq for str>::eq",)
@@ -241,11 +243,60 @@ def str_table(body, prog):
                 if is_true:
                     pos.append(lit)
         res = describe_result(prog, p.ret)
+        # `Some(<enum variant>)` is looked through, so that a table moved into a helper returning Option reads the same
+        if res[0] == "variant" and res[1].endswith("option::Option") and res[2] == "Some" and p.ret[0] == "rv":
+            ops = p.ret[1].get("ops") or []
+            cur = ops[0] if ops else None
+            for _ in range(6):
+                if cur is None:
+                    break
+                c = op_const(cur)
+                if c is not None:
+                    ty, val = c.get("ty", ""), c.get("val", "")
+                    if ty in prog.adts and isinstance(val, str) and val.startswith(ty + "::"):
+                        res = ("variant", ty, val[len(ty) + 2:])
+                    else:
+                        res = ("const", val)
+                    break
+                l = op_local(cur)
+                nxt = None
+                if l is not None:
+                    for e in reversed(p.events):
+                        if e[0] == "assign" and e[2]["a"]["l"] == l and not e[2]["a"]["p"]:
+                            rv = e[2]["rv"]
+                            if isinstance(rv, dict) and "use" in rv:
+                                nxt = rv["use"]
+                            else:
+                                res = describe_result(prog, ("rv", rv))
+                            break
+                cur = nxt
+        if res[0] == "other" and not isinstance(res[1], str):
+            res = ("other", json.dumps(res[1], sort_keys=True, default=str))
         if len(pos) == 1:
             table.setdefault(pos[0], set()).add(res)
         elif not pos:
             default.append(res)
     return table, default
+
+
+def str_table_deep(body, prog, within="syntax::"):
+    """str_table of `body`, or, when `body` itself compares no literal, of the one workspace function it calls that
+    does (a table moved into a helper)."""
+    tab, default = str_table(body, prog)
+    if tab:
+        return tab, default, body
+    found = []
+    for _, t in body.calls():
+        f = t.get("f", {})
+        c = f.get("fn")
+        cb = prog.body(c) if c else None
+        if cb is not None and c.startswith(within):
+            t2, d2 = str_table(cb, prog)
+            if t2:
+                found.append((t2, d2, cb))
+    if len(found) == 1:
+        return found[0]
+    return tab, default, body
 
 
 def variant_table(body, prog, enum_path):
@@ -403,13 +454,15 @@ def eval_char_pred(prog, fn, ch, depth=0):
                 break
         if feasible:
             r = describe_result(prog, p.ret)
-            if r[0] == "other" and isinstance(r[1], dict) and r[1].get("binop") in ("Eq", "Ne"):
+            if r[0] == "other" and isinstance(r[1], dict) and r[1].get("binop") in ("Eq", "Ne", "Lt", "Le", "Gt", "Ge"):
                 rv = r[1]
-                c = op_const(rv["b"]) or op_const(rv["a"])
+                cb_, ca_ = op_const(rv["b"]), op_const(rv["a"])
+                c = cb_ or ca_
                 if c is None or "int" not in c:
                     return None
-                eq = (ord(ch) == c["int"])
-                results.add("true" if (eq if rv["binop"] == "Eq" else not eq) else "false")
+                x, y = (ord(ch), c["int"]) if cb_ is not None else (c["int"], ord(ch))
+                val = {"Eq": x == y, "Ne": x != y, "Lt": x < y, "Le": x <= y, "Gt": x > y, "Ge": x >= y}[rv["binop"]]
+                results.add("true" if val else "false")
                 continue
             if r[0] != "const":
                 return None
